@@ -93,8 +93,14 @@ func reasmSpec(id string, which reasm.Which, snapshot bool, rule string, assumpt
 		c.Add("random_histories", int64(nRandom))
 		// timed histories (the C19 generator: timeouts of milliseconds with real sleeps, Maintain): the same
 		// boundary oracle applies whatever made an event leave the buffer, expiry included
-		if !which.C10 {
+		{
 			nTimed := c.Pick(24000, 600_000)
+			whichTimed, clock := which, false
+			if which.C10 {
+				// C10's third cause, "its timeout had elapsed", is decided on the recorded call intervals: the
+				// untimed rule (nothing can expire) is replaced by the interval rule of the C19 oracle
+				whichTimed.C19, clock = true, true
+			}
 			sem := make(chan struct{}, 256)
 			var wg sync.WaitGroup
 			for i := 0; i < nTimed; i++ {
@@ -104,12 +110,16 @@ func reasmSpec(id string, which reasm.Which, snapshot bool, rule string, assumpt
 					defer wg.Done()
 					defer func() { <-sem }()
 					h := genC19(c.Rand(7, uint64(i)))
-					tr := reasm.Execute(h, reasm.ExecOpts{})
-					fs, cl := reasm.Check(tr, which)
+					tr := reasm.Execute(h, reasm.ExecOpts{Clock: clock, Snapshot: snapshot && clock})
+					fs, cl := reasm.Check(tr, whichTimed)
 					ev.Add(1)
 					deliveries.Add(int64(cl.Deliveries))
 					lostReports.Add(int64(cl.LostReports))
+					snaps.Add(int64(cl.SnapshotsSeen))
 					for _, f := range fs {
+						if which.C10 && f.Prop == "C19" && f.Sig == "delivered-before-timeout" {
+							f.Prop, f.Sig = "C10", "evicted-before-timeout"
+						}
 						if f.Prop == id || f.Prop == "ANY" {
 							c.Violation(f.Sig, f.What+"\n  timed history: "+h.String(), h)
 						}
